@@ -705,6 +705,7 @@ def run(ctx):
     r12 = ctx.rule("C05-R12", "renumbering: every transferred literal is recorded in the literal map before it is returned (no unwrap on a missing entry, no re-walk of merged gates), and every root is transferred on every successful initialisation (shared with C12-R5/R10)", floor=12)
     c12.run_r5(ctx, r12)
     c12.run_r10(ctx, r12)
+    c12.run_r16(ctx, r12)  # .. and the cycle probe precedes every gate-opening push (the walk around a cycle terminates)
     from .c05b import run_r11
     r11 = ctx.rule("C05-R11", "an advance by X + c (c a positive constant, scanner calls peeled down to their start offset) passes over bytes that a look-ahead answered on the way: the input can end anywhere and advancing past the buffered data panics", floor=8)
     run_r11(ctx, r11)
